@@ -108,26 +108,45 @@ fn main() {
                 None => "none".to_string(),
             }
         }),
-        // roundtrip F T Z N Al drop_mod repair  -> encodes bytes (i*31+7), drops source packets with index % drop_mod == 0
+        // roundtrip F T Z N Al drop_mod repair seed -> encodes bytes (i*31+7)^(i>>5), drops every drop_mod-th source
+        // packet (0 = none), adds `repair` repair packets per block, shuffles with a seeded LCG, feeds one by one
         "roundtrip" => catch(|| {
             let f: usize = arg(&a, 1);
-            let data: Vec<u8> = (0..f).map(|i| (i * 31 + 7) as u8).collect();
+            let data: Vec<u8> = (0..f).map(|i| (((i * 31 + 7) ^ (i >> 5)) & 0xFF) as u8).collect();
             let cfg = ObjectTransmissionInformation::new(f as u64, arg(&a, 2), arg(&a, 3), arg(&a, 4), arg(&a, 5));
             let enc = Encoder::new(&data, cfg);
             let drop_mod: usize = arg(&a, 6);
+            let repair: u32 = arg(&a, 7);
+            let mut state: u64 = arg::<u64>(&a, 8).wrapping_mul(6364136223846793005).wrapping_add(1442695040888963407);
+            let mut packets = vec![];
+            for block in enc.get_block_encoders() {
+                for (i, p) in block.source_packets().into_iter().enumerate() {
+                    if drop_mod > 0 && i % drop_mod == 0 {
+                        continue;
+                    }
+                    packets.push(p);
+                }
+                packets.extend(block.repair_packets(0, repair));
+            }
+            for i in (1..packets.len()).rev() {
+                state = state.wrapping_mul(6364136223846793005).wrapping_add(1442695040888963407);
+                let j = (state >> 33) as usize % (i + 1);
+                packets.swap(i, j);
+            }
             let mut dec = Decoder::new(cfg);
             let mut res = None;
-            for (i, p) in enc.get_encoded_packets(arg(&a, 7)).into_iter().enumerate() {
-                let is_src = (p.payload_id().encoding_symbol_id() as usize) < 1 << 30;
-                if is_src && drop_mod > 0 && i % drop_mod == 0 {
-                    continue;
-                }
-                if res.is_none() {
-                    res = dec.decode(p);
+            let mut wrong_early = false;
+            for p in packets {
+                if let Some(d) = dec.decode(p) {
+                    if d != data {
+                        wrong_early = true;
+                    }
+                    res = Some(d);
+                    break;
                 }
             }
             match res {
-                Some(d) => format!("decoded equal={} len={}", d == data, d.len()),
+                Some(d) => format!("decoded equal={} len={} wrong={}", d == data, d.len(), wrong_early),
                 None => "none".to_string(),
             }
         }),
